@@ -69,7 +69,7 @@ func main() {
 	tier := fs.String("tier", "quick", "quick|thorough")
 	nprog := fs.Int("programs", 0, "number of generated programs (0: by tier)")
 	keep := fs.Bool("keep", false, "keep the work directory")
-	fs.BoolVar(&blackShadow, "blackshadow", false, "also write prefix-after-deeper path pairs for black-list masks (a known deviation of the library, see docs/C13.md)")
+	fs.BoolVar(&blackShadow, "blackshadow", true, "also write prefix-after-deeper path pairs for black-list masks (a known deviation of the library, see docs/C13.md)")
 	fs.Parse(os.Args[2:])
 	switch os.Args[1] {
 	case "extract":
@@ -500,6 +500,9 @@ func run(repo, dir string, seed uint64, nprog, nvalues, nmasks int, keep bool) i
 		return 2
 	}
 
+	pr := &proc{bin: b.Bin, dir: b.Dir}
+	defer pr.stop()
+
 	// ---- oracle
 	type failure struct {
 		c    *check
@@ -525,7 +528,7 @@ func run(repo, dir string, seed uint64, nprog, nvalues, nmasks int, keep bool) i
 		}
 		out.Count("op." + c.what)
 		out.Count("answer." + strings.Fields(ans)[0])
-		v := verdict(c, ans)
+		v := rootCause(pr, c, verdict(c, ans))
 		if v.skip != "" {
 			out.Count("oracle.skip." + v.skip)
 			continue
@@ -547,8 +550,6 @@ func run(repo, dir string, seed uint64, nprog, nvalues, nmasks int, keep bool) i
 	}
 	sort.Strings(keys)
 	tOracle := time.Now()
-	pr := &proc{bin: b.Bin, dir: b.Dir}
-	defer pr.stop()
 	for _, k := range keys {
 		f := best[k]
 		c, v := shrink(pr, f.c, f.v)
@@ -585,6 +586,7 @@ var stableKeys = map[string]bool{
 	"required-black-submask-applied": true,
 	"read:union-field-white-unselectable": true, "read:union-field-black-unfilterable": true,
 	"zero-required-rejects-union-field": true, "union-element-paths-rejected": true, "compact-protocol-differs": true,
+	keyBlackPrefix: true, keyBlackPrefix + ":read": true,
 }
 
 func minI(a, b int) int {
@@ -843,6 +845,82 @@ func verdict(c *check, ans string) verdictT {
 	return verdictT{key: "driver", msg: "unknown check"}
 }
 
+// ---------------------------------------------------------------- root cause of a failure under a black-list mask
+
+const keyBlackPrefix = "black:prefix-after-deeper-path-ignored"
+
+func hasShadow(n *mnode) bool {
+	if n == nil {
+		return false
+	}
+	if n.leaf {
+		return n.shadow != nil && !n.shadow.leaf
+	}
+	if hasShadow(n.star) {
+		return true
+	}
+	for _, k := range n.kids {
+		if hasShadow(k.sub) {
+			return true
+		}
+	}
+	return false
+}
+
+func stripShadows(n *mnode) *mnode {
+	c := n.clone()
+	var walk func(m *mnode)
+	walk = func(m *mnode) {
+		if m == nil {
+			return
+		}
+		m.shadow = nil
+		walk(m.star)
+		for _, k := range m.kids {
+			walk(k.sub)
+		}
+	}
+	walk(c)
+	return c
+}
+
+// rootCause renames a failure to keyBlackPrefix (":read" for MR) when — and only when — the mask is a black list, some path of the
+// list is a proper prefix of an EARLIER path (a leaf with a shadow), and the very same case PASSES once the earlier deeper paths under
+// those prefixes are taken out of the list (the op is re-run to confirm; the path SET is the same, so is the expected result).
+// Every other failure keeps its generic class.
+func rootCause(pr *proc, c *check, v verdictT) verdictT {
+	if v.key == "" || v.skip != "" || pr == nil {
+		return v
+	}
+	t := *c
+	changed := false
+	if c.black && !c.isNil && hasShadow(c.tree) {
+		t.tree, changed = stripShadows(c.tree), true
+	}
+	if len(c.env) > 0 {
+		t.env = append([]envMask{}, c.env...)
+		for i, e := range t.env {
+			if e.black && hasShadow(e.tree) {
+				t.env[i].tree, changed = stripShadows(e.tree), true
+			}
+		}
+	}
+	if !changed {
+		return v
+	}
+	w := verdict(&t, pr.ask(t.line()))
+	if w.key != "" || w.skip != "" {
+		return v
+	}
+	key := keyBlackPrefix
+	if c.what == "MR" {
+		key += ":read"
+	}
+	v.msg = "black-list mask: a complete path handed to NewFieldMask AFTER one of its own extensions does not reject the node (the same case passes with the earlier deeper paths removed); generic class: " + v.key + " — " + v.msg
+	v.key = key
+	return v
+}
+
 // ---------------------------------------------------------------- shrinking
 
 func (n *mnode) clone() *mnode {
@@ -1007,7 +1085,7 @@ func shrink(b *proc, c *check, v verdictT) (*check, verdictT) {
 			return verdictT{}, false
 		}
 		t.enc, t.norm = enc, norm
-		w := verdict(t, b.ask(t.line()))
+		w := rootCause(b, t, verdict(t, b.ask(t.line())))
 		return w, w.key == v.key
 	}
 	tries := 0
